@@ -345,6 +345,10 @@ impl<'a> Gen<'a> {
                     let s = self.sent_abs.clone();
                     let c = [format!("{}/secret", s), "../secret".into(), "../sib".into(), "..".into(), "../../sent/secret".into(), format!("{}/sib/s1", s), "/".into()];
                     self.r.pick(&c).clone().into_bytes()
+                } else if self.r.chance(1, 12) {
+                    // long targets, up to PATH_MAX - 1 (the readlink buffer's growth path)
+                    let n = *self.r.pick(&[255usize, 256, 257, 1000, 3839, 3840, 3841, 4000, 4094, 4095]);
+                    (0..n).map(|i| if i % 7 == 6 { b'/' } else { b'a' + (i % 23) as u8 }).collect()
                 } else {
                     let c: [&[u8]; 6] = [b"a", b"b", b"nonexistent", b".", b"a/a", b"f"];
                     self.r.pick(&c).to_vec()
